@@ -76,6 +76,7 @@ def det(M):
 
 def main():
     chk = Check(PID)
+    chk.default_replay = _replay_general
     snp.EXACT_SQRT[0] = True
     import hiten.algorithms.dynamics.rtbp as rtbp
     from hiten.algorithms.types.services import libration as lib
@@ -392,6 +393,47 @@ acc = _crtbp_accel(np.array([x, 0.0, 0.0, 0.0, 0.0, 0.0]), mu)
 in_region = {1: -mu < x < 1 - mu, 2: x > 1 - mu, 3: x < -mu}[k]
 _verdict((not in_region) or abs(float(acc[3])) > 1e-8, mu=mu, x=x, in_region=bool(in_region), residual_acceleration=float(acc[3]))
 ''' % (mu, int(pname[1]))
+
+
+def _replay_general():
+    """General confirmation on the compiled build: L1..L5 over a sweep of mass ratios: the point is returned, the field vanishes
+    there, it lies in its own region, gamma is its distance to the nearer primary, and the linear modes solve the characteristic equation."""
+    return '''
+import warnings; warnings.filterwarnings("ignore")
+from hiten.system import System
+from hiten.algorithms.dynamics.rtbp import _crtbp_accel, _jacobian_crtbp
+bad = {}
+mus = sorted(set(list(np.exp(np.linspace(np.log(2.3e-9), np.log(0.5), 24))) + [0.05 * i for i in range(1, 11)] + [1.215e-2, 3.0e-6, 9.5e-4]))
+for mu in mus:
+    try:
+        s = System.from_mu(float(mu))
+    except Exception as e:
+        bad["system_mu_%.3e" % mu] = repr(e)[:80]; continue
+    for k in range(1, 6):
+        tag = "L%d_mu_%.3e" % (k, mu)
+        try:
+            p = s.get_libration_point(k); pos = np.asarray(p.position, dtype=float)
+        except Exception as e:
+            bad[tag] = "position not returned: %s" % repr(e)[:80]; continue
+        x, y = float(pos[0]), float(pos[1])
+        acc = _crtbp_accel(np.array([x, y, 0.0, 0.0, 0.0, 0.0]), float(mu))
+        if float(np.max(np.abs(acc[3:]))) > 1e-8: bad[tag] = "field does not vanish: %.2e" % float(np.max(np.abs(acc[3:]))); continue
+        region = {1: -mu < x < 1 - mu and y == 0, 2: x > 1 - mu and y == 0, 3: x < -mu and y == 0, 4: y > 0, 5: y < 0}[k]
+        if not region: bad[tag] = "outside its region: x=%.6f y=%.6f" % (x, y); continue
+        if k <= 3:
+            try:
+                g = float(p.dynamics.gamma) if hasattr(p.dynamics, "gamma") else float(p.gamma)
+                want = {1: 1 - mu - x, 2: x - (1 - mu), 3: -mu - x}[k]
+                if abs(g - want) > 1e-8 * max(1.0, abs(want)): bad[tag] = "gamma %.10f is not the distance %.10f" % (g, want); continue
+                lam, om1, om2 = [complex(v) for v in p.linear_modes]
+                A = np.asarray(_jacobian_crtbp(x, 0.0, 0.0, float(mu)), dtype=float)
+                ev = np.linalg.eigvals(A)
+                for val, nm in ((lam, "lambda"), (1j * om1, "omega1"), (1j * om2, "omega2")):
+                    if float(np.min(np.abs(ev - val))) > 1e-6 * max(1.0, abs(val)): bad[tag] = "%s = %s is not an eigenvalue of the linearised field" % (nm, val); break
+            except Exception as e:
+                bad[tag] = "linear data failed: %s" % repr(e)[:80]
+_verdict(bool(bad), **{k: bad[k] for k in list(bad)[:8]})
+'''
 
 
 def _replay_normal_form():
